@@ -1793,7 +1793,53 @@ fn starts_safe(m: &Msg) -> bool {
     }
 }
 
+/// A prefix key followed by text that keeps its sequence alive for a few more bytes and then cannot complete it
+/// (`CSI` parameters followed by a byte that is no final byte of any sequence the library knows; `ESC P 1 x`;
+/// `ESC _ G x !`): the documented resolution is the key, then the text in order. Exercises the re-parsing of
+/// read-ahead bytes.
+fn read_ahead_block(rng: &mut Rng) -> Vec<Msg> {
+    let text = |s: &str| s.chars().map(|c| Msg::Text(c as u32)).collect::<Vec<_>>();
+    let mut block;
+    match rng.below(4) {
+        0 | 1 => {
+            block = vec![Msg::Key(key_index(b"\x1b["))];
+            let n = 1 + rng.below(8);
+            let mut params = String::new();
+            for _ in 0..n {
+                params.push(*rng.pick(&['0', '1', '2', '5', '9', ';', ';']));
+            }
+            // introducers of the parsed CSI families keep more grammars alive
+            if rng.chance(1, 3) {
+                params.insert(0, *rng.pick(&['?', '<']));
+            }
+            block.extend(text(&params));
+            block.extend(text(&rng.pick(&['>', '!', 'a', 'z', ' ', '@', 'x', '"']).to_string()));
+        }
+        2 => {
+            block = vec![Msg::Key(key_index(b"\x1bP"))];
+            let t: &str = *rng.pick(&["1x", "0!", "1$x", "1+rzz", "0+r4g", "1+r4a=!"]);
+            block.extend(text(t));
+        }
+        _ => {
+            block = vec![Msg::Key(key_index(b"\x1b_"))];
+            let t: &str = *rng.pick(&["Gx!", "Gi=1!", "Gi=12,p!", "G!"]);
+            block.extend(text(t));
+        }
+    }
+    block
+}
+
 fn gen_stream(ctx: &Ctx, rng: &mut Rng) -> Vec<Msg> {
+    if rng.chance(1, 25) {
+        let mut msgs = vec![];
+        if rng.chance(1, 2) {
+            msgs.push(gen_msg_not_prefix(ctx, rng));
+        }
+        msgs.extend(read_ahead_block(rng));
+        // what follows must not be printable text that could still be merged: a report or key starting with ESC
+        msgs.push(Msg::Cursor { row: 10 + rng.below(20), col: 20 + rng.below(50) });
+        return msgs;
+    }
     let n = 1 + rng.below(12) as usize;
     // one stream in ten is mostly text, so that reports sit between runs of plain characters
     let texty = rng.chance(1, 10);
@@ -1810,6 +1856,15 @@ fn gen_stream(ctx: &Ctx, rng: &mut Rng) -> Vec<Msg> {
         msgs.push(m);
     }
     msgs
+}
+
+fn gen_msg_not_prefix(ctx: &Ctx, rng: &mut Rng) -> Msg {
+    loop {
+        let m = gen_msg(rng);
+        if !ctx.is_nonterminal(&m) {
+            return m;
+        }
+    }
 }
 
 /* ================================================================ key table tie */
@@ -2158,6 +2213,18 @@ fn ch(digits: u32, value: u64) -> Channel {
 /// streams with the expectation computed from `expected_event`
 fn corpus(ctx: &Ctx, rng: &mut Rng) -> Vec<(Vec<Msg>, Option<Expect>)> {
     let mut c: Vec<(Vec<Msg>, Option<Expect>)> = vec![];
+    // a prefix key followed by text that stays alive for several bytes and then dies: the key, then the text in
+    // order, then the following report untouched
+    for (prefix, tail) in [
+        (&b"\x1b["[..], "12a"), (b"\x1b[", "1;5>"), (b"\x1b[", "1;2>"), (b"\x1b[", "<11;;2z"), (b"\x1b[", "?2004;1!"),
+        (b"\x1b[", "65535;1>"), (b"\x1bP", "1x"), (b"\x1bP", "1+r4a=!"), (b"\x1b_", "Gi=1!"), (b"\x1b_", "Gx!"),
+    ] {
+        let mut msgs = vec![Msg::Key(key_index(prefix))];
+        msgs.extend(tail.chars().map(|ch| Msg::Text(ch as u32)));
+        c.push((msgs.clone(), None));
+        msgs.push(Msg::Cursor { row: 10, col: 20 });
+        c.push((msgs, None));
+    }
     let mut one = |m: Msg| c.push((vec![m], None));
     // the documented overlap and its neighbourhood; coordinates at both ends
     for col in 1..=9 {
